@@ -19,7 +19,14 @@ package queue
 //
 // Envelopes are spelled in several legitimate ways (c02Envs: plain, null reverse-path,
 // internationalised + SMTPUTF8, quoted local parts, mixed); recovery runs are scripted with
-// temporary and permanent failures from their first attempt on.
+// temporary and permanent failures from their first attempt on.  Bodies may be empty (header-only
+// message: the body file exists with length 0, no write call is made for it) or a single byte,
+// headers may have no field or fields with an empty value.  Recovery runs are made with
+// max_parallelism 1, 2 or 4 on directories that hold up to five stored messages, and hand-made
+// backlogs (`C02 backlog …`: 3-5 complete messages, max_parallelism 1-2, first attempts failing
+// temporarily) are run to quiescence.  A run that stops making progress while the queue still owes
+// a delivery is abandoned and reported (C02/recovery-hang, and C02/accepted-lost for the messages it
+// never attempted) with an op line that reproduces it — never waited for as a harness failure.
 
 import (
 	"bufio"
@@ -450,13 +457,39 @@ var c02Runs int64
 // that can only hang again (the verdict is a violation already).
 var c02Hangs int64
 
-const c02HangsEnough = 4
+const c02HangsEnough = 8 // every stuck run is made twice
 
 func c02Patience() time.Duration {
 	if atomic.LoadInt64(&c02Hangs) > 0 {
 		return 6 * time.Second
 	}
 	return 25 * time.Second
+}
+
+// c02RunRecovery runs a recovery segment; a run that got stuck is made a second time and only called
+// stuck when that one is stuck as well (a stuck run has to be a property of the input, not of the
+// moment; the second run is the one that is judged).
+func c02RunRecovery(in c02SegIn) c02SegOut {
+	rec := c02RunSegment(in)
+	if rec.hung {
+		rec = c02RunSegment(in)
+		if !rec.hung {
+			atomic.AddInt64(&c02HangsNotRepeated, 1)
+		}
+	}
+	return rec
+}
+
+var c02HangsNotRepeated int64
+var c02NegLive int64
+
+// c02V reports a violation (and counts it: the replay of an input whose outcome depends on how the
+// deliveries interleave is repeated a few times until it shows the violation again).
+var c02Violations int64
+
+func c02V(out *vh.Out, sig, op, detail string) {
+	atomic.AddInt64(&c02Violations, 1)
+	out.Violation(sig, op, detail)
 }
 
 func c02RunSegment(in c02SegIn) c02SegOut {
@@ -647,6 +680,18 @@ func c02RunSegment(in c02SegIn) c02SegOut {
 			hung = true
 			atomic.AddInt64(&c02Hangs, 1)
 			break
+		}
+		if live < 0 && !time.Now().After(deadline) {
+			// The queue's own lines account for more ended deliveries than were begun (never on the tree
+			// the harness was written for: e.g. a changed openMessage that logs "read message" AND
+			// renames the meta-data away).  No exact criterion is left: wait until nothing at all has
+			// happened for a while, let Close() wait for the running deliveries, and let the monitor judge.
+			if time.Since(lastProgress) > 500*time.Millisecond {
+				atomic.AddInt64(&c02NegLive, 1)
+				break
+			}
+			time.Sleep(100 * time.Microsecond)
+			continue
 		}
 		if live < 0 || time.Now().After(deadline) {
 			panic(fmt.Sprintf("c02: queue did not become quiescent (live=%d loaded=%d commits=%d removed=%d aborts=%d readErr=%d)", live, lg.loaded, commits, lg.removed, aborts, lg.readErr))
@@ -1197,17 +1242,17 @@ func (x *c02Explorer) parOr4() int {
 // that reproduces it.  Only when that does not reproduce it is the single-id line named.
 func (x *c02Explorer) lost(ctx *c02RecCtx, sig, op, detail string) {
 	if ctx == nil || ctx.deliverable < 2 {
-		x.out.Violation(sig, op, detail)
+		c02V(x.out, sig, op, detail)
 		return
 	}
 	if !ctx.tried {
 		ctx.tried = true
-		if atomic.AddInt64(&c02Confirms, 1) > c02ConfirmCap || atomic.LoadInt64(&c02Hangs) >= c02HangsEnough+2 {
+		if atomic.AddInt64(&c02Confirms, 1) > c02ConfirmCap || atomic.LoadInt64(&c02Hangs) >= c02HangsEnough+4 {
 			ctx.capped = true
 		} else if line, ok := x.backlogLine(ctx); ok {
 			ctx.line = line
-			// a stuck run may depend on how the deliveries interleave: the reduced directory gets three tries
-			for try := 0; try < 3 && !ctx.reproduced; try++ {
+			// a stuck run may depend on how the deliveries interleave: the reduced directory gets two tries
+			for try := 0; try < 2 && !ctx.reproduced; try++ {
 				ctx.reproduced = c02RunBacklog(x.out, line) > 0
 				if sig != "C02/recovery-hang" {
 					break
@@ -1225,7 +1270,7 @@ func (x *c02Explorer) lost(ctx *c02RecCtx, sig, op, detail string) {
 		x.out.Stat("monitor.stuck-multi-message-run.not-reproduced-from-reduced-directory")
 		x.out.Note("a recovery run on a directory with " + strconv.Itoa(ctx.deliverable) + " deliverable messages stopped making progress (" + op + "); the reduced directory did not get stuck: " + ctx.line)
 	default:
-		x.out.Violation(sig, op, detail+"; the directory held "+strconv.Itoa(ctx.deliverable)+" deliverable messages (max_parallelism "+strconv.Itoa(x.parOr4())+"); not reproduced from the reduced directory "+ctx.line)
+		c02V(x.out, sig, op, detail+"; the directory held "+strconv.Itoa(ctx.deliverable)+" deliverable messages (max_parallelism "+strconv.Itoa(x.parOr4())+"); not reproduced from the reduced directory "+ctx.line)
 	}
 }
 
@@ -1438,7 +1483,7 @@ func (x *c02Explorer) explore(seg c02SegOut, recovery bool, hist map[string]c02H
 			key := fmt.Sprintf("%d|%s|%s", x.maxTries, skey, okey)
 			rec, ok := x.cache[key]
 			if !ok {
-				rec = c02RunSegment(c02SegIn{maxTries: x.maxTries, files: files, outcomes: outcomes, expect: x.expect, recovery: true, par: x.par})
+				rec = c02RunRecovery(c02SegIn{maxTries: x.maxTries, files: files, outcomes: outcomes, expect: x.expect, recovery: true, par: x.par})
 				x.cache[key] = rec
 				x.ctxs[key] = &c02RecCtx{perID: perID, outcomes: outcomes, deliverable: ndeliverable}
 				if ndeliverable > x.parOr4() {
@@ -1489,6 +1534,12 @@ func (x *c02Explorer) judge(id string, h c02Hist, crashFiles map[string][]byte, 
 	labels := c02Labels(rec.logs[id], true)
 	obs := strings.Join(labels, " ") + " | " + c02ShowDisk(rec.final[id], id)
 	x.out.Corr(op, obs)
+	// The model's answer does not depend on max_parallelism (the ids are independent), so the
+	// correspondence line does not carry it; the line named in a violation does (token S<par> in front,
+	// read by the replay only) whenever the recovery runs were not made with the default of 4.
+	if x.parOr4() != 4 {
+		op = fmt.Sprintf("C02 run %d %d S%d %s", x.maxTries, hp, x.parOr4(), strings.Join(toks, " "))
+	}
 
 	// ---- statistics of the input distribution
 	x.out.Stat("depth." + strconv.Itoa(depth))
@@ -1651,7 +1702,7 @@ func (x *c02Explorer) judge(id string, h c02Hist, crashFiles map[string][]byte, 
 		}
 	}
 	if aborted && len(attPost) > 0 {
-		x.out.Violation("C02/aborted-delivered", op, "a message whose transaction was aborted is attempted after restart; "+detail())
+		c02V(x.out, "C02/aborted-delivered", op, "a message whose transaction was aborted is attempted after restart; "+detail())
 	}
 	// recipients stored as pending in the metadata found at restart
 	stored := map[string]bool{}
@@ -1665,7 +1716,7 @@ func (x *c02Explorer) judge(id string, h c02Hist, crashFiles map[string][]byte, 
 	for _, l := range attPost {
 		for _, r := range l {
 			if !stored[r] || strings.HasPrefix(r, "UNKNOWN") {
-				x.out.Violation("C02/foreign-recipient", op, "recipient "+r+" attempted after restart is not a pending recipient of the stored metadata; "+detail())
+				c02V(x.out, "C02/foreign-recipient", op, "recipient "+r+" attempted after restart is not a pending recipient of the stored metadata; "+detail())
 			}
 		}
 	}
@@ -1678,16 +1729,16 @@ func (x *c02Explorer) judge(id string, h c02Hist, crashFiles map[string][]byte, 
 		for _, l := range attPost {
 			for _, r := range l {
 				if !last[r] {
-					x.out.Violation("C02/resent-after-later-attempt", op, "recipient "+r+" is sent again although a later attempt without it had begun before the stop; "+detail())
+					c02V(x.out, "C02/resent-after-later-attempt", op, "recipient "+r+" is sent again although a later attempt without it had begun before the stop; "+detail())
 				}
 			}
 		}
 	}
 	if rec.bad[id] {
 		if accepted {
-			x.out.Violation("C02/accepted-content-lost", op, "an accepted message is delivered after restart with a header/body that differs from what was accepted; "+detail())
+			c02V(x.out, "C02/accepted-content-lost", op, "an accepted message is delivered after restart with a header/body that differs from what was accepted; "+detail())
 		} else {
-			x.out.Violation("C02/unstored-content-delivered", op, "a message is delivered after restart with a header/body that was never handed to the queue (metadata durable before the content); "+detail())
+			c02V(x.out, "C02/unstored-content-delivered", op, "a message is delivered after restart with a header/body that was never handed to the queue (metadata durable before the content); "+detail())
 		}
 	}
 }
@@ -1818,7 +1869,7 @@ func c02RunScenario(out *vh.Out, sc c02Scenario, r *vh.Rng, seen *sync.Map, only
 	}
 	seg0 := c02RunSegment(c02SegIn{maxTries: sc.maxTries, accepts: sc.accepts, outcomes: sc.out0, expect: expect, stagger: sc.stagger, par: 8})
 	if seg0.hung {
-		out.Violation("C02/queue-hang", fmt.Sprintf("C02 run %d 1 %s", sc.maxTries, strings.Join(c02Tokens(seg0.logs[sc.accepts[0].id], c02Cut{pos: len(seg0.logs[sc.accepts[0].id])}, false), " ")),
+		c02V(out, "C02/queue-hang", fmt.Sprintf("C02 run %d 1 %s", sc.maxTries, strings.Join(c02Tokens(seg0.logs[sc.accepts[0].id], c02Cut{pos: len(seg0.logs[sc.accepts[0].id])}, false), " ")),
 			fmt.Sprintf("the queue stopped making progress in a run without any crash (%d messages, max_parallelism 8) while it still owed deliveries", len(sc.accepts)))
 		return
 	}
@@ -1852,7 +1903,7 @@ func c02RunScenario(out *vh.Out, sc c02Scenario, r *vh.Rng, seen *sync.Map, only
 			out.Stat("scenario.header." + map[int]string{hls[0]: "no-field", hls[1]: "one-empty-field", hls[3]: "second-field-empty"}[a.hl])
 		}
 		if seg0.bad[a.id] {
-			out.Violation("C02/content-differs-without-crash", op, "delivered content differs from the accepted one")
+			c02V(out, "C02/content-differs-without-crash", op, "delivered content differs from the accepted one")
 		}
 	}
 	out.Stat(fmt.Sprintf("scenario.messages.%d", len(sc.accepts)))
@@ -1939,6 +1990,8 @@ func c02Replay(out *vh.Out, op string, seen *sync.Map) {
 		case t[0] == '+':
 			v, _ := strconv.Atoi(t[1:])
 			ops += v
+		case t[0] == 'S':
+			sc.par, _ = strconv.Atoi(t[1:])
 		case t == "C":
 			a.fate = 'c'
 		case t == "B":
@@ -2122,7 +2175,7 @@ func c02JudgeSyn(out *vh.Out, stat string, maxTries int, sp *c02SynSpec, rec c02
 	}
 	viol := func(sig, detail string) {
 		nviol++
-		out.Violation(sig, violOp, "message "+id+": "+detail)
+		c02V(out, sig, violOp, "message "+id+": "+detail)
 	}
 	// monitor: nothing but pending recipients of the stored metadata is ever attempted
 	stored := map[string]bool{}
@@ -2200,7 +2253,7 @@ func c02RunSyn(out *vh.Out, op string) {
 	if !ok {
 		return
 	}
-	rec := c02RunSegment(c02SegIn{maxTries: maxTries, files: sp.files, outcomes: map[string][]string{sp.id: sp.outcomes}, recovery: true, extDel: sp.extDel})
+	rec := c02RunRecovery(c02SegIn{maxTries: maxTries, files: sp.files, outcomes: map[string][]string{sp.id: sp.outcomes}, recovery: true, extDel: sp.extDel})
 	if rec.raced {
 		out.Stat("syn.external-delete-too-late(discarded)")
 		return
@@ -2210,7 +2263,7 @@ func c02RunSyn(out *vh.Out, op string) {
 	}
 	n := c02JudgeSyn(out, "syn", maxTries, sp, rec, "")
 	if rec.hung && n == 0 {
-		out.Violation("C02/recovery-hang", op, "the recovery run stopped making progress while the queue still owed a delivery (its own log: a message loaded or accepted, neither removed nor given up on)")
+		c02V(out, "C02/recovery-hang", op, "the recovery run stopped making progress while the queue still owed a delivery (its own log: a message loaded or accepted, neither removed nor given up on)")
 	}
 }
 
@@ -2266,7 +2319,7 @@ func c02RunBacklog(out *vh.Out, op string) int {
 	if !flush() || len(specs) == 0 {
 		return 0
 	}
-	rec := c02RunSegment(c02SegIn{maxTries: maxTries, files: files, outcomes: outcomes, recovery: true, par: par})
+	rec := c02RunRecovery(c02SegIn{maxTries: maxTries, files: files, outcomes: outcomes, recovery: true, par: par})
 	out.Stat("backlog.runs")
 	out.Stat(fmt.Sprintf("backlog.messages.%d", len(specs)))
 	out.Stat(fmt.Sprintf("backlog.max-parallelism.%d", par))
@@ -2286,7 +2339,7 @@ func c02RunBacklog(out *vh.Out, op string) int {
 	}
 	if rec.hung {
 		nviol++
-		out.Violation("C02/recovery-hang", op, fmt.Sprintf("the recovery run on a spool of %d messages with max_parallelism %d stopped making progress while the queue still owed deliveries; never attempted: %s", len(specs), par, strings.Join(never, " ")))
+		c02V(out, "C02/recovery-hang", op, fmt.Sprintf("the recovery run on a spool of %d messages with max_parallelism %d stopped making progress while the queue still owed deliveries; never attempted: %s", len(specs), par, strings.Join(never, " ")))
 	}
 	return nviol
 }
@@ -2445,8 +2498,18 @@ func TestVerifC02(t *testing.T) {
 
 	if ops := vh.Replay(); ops != nil {
 		for _, op := range ops {
-			if strings.HasPrefix(op, "C02 ") {
-				c02Replay(out, op, seen)
+			if !strings.HasPrefix(op, "C02 ") {
+				continue
+			}
+			// inputs with several deliveries competing for the delivery slots (backlogs, recovery runs with
+			// max_parallelism given) depend on how the deliveries interleave: up to four tries
+			tries := 1
+			if strings.HasPrefix(op, "C02 backlog ") || strings.Contains(op, " S1 ") || strings.Contains(op, " S2 ") {
+				tries = 4
+			}
+			before := atomic.LoadInt64(&c02Violations)
+			for t := 0; t < tries && atomic.LoadInt64(&c02Violations) == before; t++ {
+				c02Replay(out, op, &sync.Map{})
 			}
 		}
 		return
@@ -2500,4 +2563,11 @@ func TestVerifC02(t *testing.T) {
 	close(jobs)
 	wg.Wait()
 	out.StatN("real-queue-runs", int(atomic.LoadInt64(&c02Runs)))
+	if n := int(atomic.LoadInt64(&c02NegLive)); n > 0 {
+		out.StatN("real-queue-runs.more-deliveries-ended-than-begun(by-the-queue's-log)", n)
+	}
+	if n := int(atomic.LoadInt64(&c02Hangs)); n > 0 {
+		out.StatN("real-queue-runs.stuck", n)
+		out.StatN("real-queue-runs.stuck.not-stuck-when-repeated", int(atomic.LoadInt64(&c02HangsNotRepeated)))
+	}
 }
